@@ -198,7 +198,7 @@ class Request(HTTPConnection):
                 body = self.body.decode(
                     encoding=self.content_type.options.get("charset", "latin-1")
                 )
-            except (UnicodeDecodeError, LookupError) as exc:
+            except (ValueError, LookupError) as exc:
                 raise HTTPException(400, content=f"Malformed form data: {exc}")
             return FormData(parse_qsl(body, keep_blank_values=True))
 
